@@ -46,7 +46,10 @@ def dataset_specs(draw, systems=None, max_nq=4, max_na=3, families=("power", "po
     elif interp == "lsq_poly":
         order = draw(st.integers(1, min(5, nv - 2)))
     else:
-        order = draw(st.integers(2, nv - 1))
+        # node-based methods take every ceil(nv/order)-th volume: any order >= 2 is admitted, also beyond the number of volumes
+        # (only for the piecewise methods: lagrange/krogh through all of 9-12 nodes are numerically unstable, as cij's
+        # own comments say, so their order stays below the number of volumes, which keeps them at <= 6 nodes)
+        order = draw(st.integers(2, nv + 3 if interp in ("pchip", "akima", "hermite") else nv - 1))
     b0 = draw(st.floats(60.0, 350.0))
     bp = draw(st.floats(3.2, 5.5))
     nt = draw(st.integers(1, max_nt))
